@@ -129,9 +129,12 @@ def run(ctx):
         final.append((lang.scoping_shadowed(rng), [], 0))
         final.append((lang.charclass_program(rng), [], 0))
         final.append((lang.array_ops_program(rng), [], 0))
+        final.append((lang.order_in_calls_shadowed(rng), [], 0))
+        final.append((lang.intern_churn_program(rng), [], 0))
     nofloat = len(final)
     for _ in range(2 if quick else 10):
         final.append((lang.float_program(rng), [], 0))
+        final.append((lang.nan_program(rng), [], 0))
     wit = [(w, WITNESSES[w]) for w in sorted(WITNESSES)]
     texts = [t for t, _, _ in final] + [t for _, t in wit]
     sem = lang.run_sem(driver, "native", texts)
